@@ -766,7 +766,7 @@ SPEC = Spec(
     prop_id="C19",
     modules=["GenjaxVerif.Props.C19"],
     theorems=[
-        "GenjaxVerif.MaskModel.C19_or_table", "GenjaxVerif.MaskModel.C19_xor_table", "GenjaxVerif.MaskModel.C19_invert",
+        "GenjaxVerif.MaskModel.C19_or_table", "GenjaxVerif.MaskModel.C19_invert_involutive", "GenjaxVerif.MaskModel.C19_or_assoc_obs", "GenjaxVerif.MaskModel.C19_or_invert_self", "GenjaxVerif.MaskModel.C19_xor_table", "GenjaxVerif.MaskModel.C19_invert",
         "GenjaxVerif.MaskModel.C19_build_val", "GenjaxVerif.MaskModel.C19_build_and", "GenjaxVerif.MaskModel.C19_flatten",
         "GenjaxVerif.MaskModel.C19_flatten_obs", "GenjaxVerif.MaskModel.C19_maybeMask_val", "GenjaxVerif.MaskModel.C19_maybeMask_obs",
         "GenjaxVerif.MaskModel.C19_unmask_default", "GenjaxVerif.MaskModel.C19_unmask_nodefault", "GenjaxVerif.MaskModel.C19_init",
